@@ -38,9 +38,7 @@ For every program, with no condition on liveness or torn marks (`Proofs/WireHist
    (`C02_retransmissions_differ_only_in_DUP`), and an entry whose packet is still retained carries, up to
    the DUP bit, the bytes the arena holds now (`C02_log_entry_matches_arena`).
 
-Not proved here (open): the same for PUBREL entries (a `PendingRelease` has no ghost serial, so "the
-same PUBREL" cannot be named across an identifier reuse; the log does record PUBRELs, and C01Wire/C14Wire
-cover their framing and size).
+The same for PUBREL entries (ghost serial `PendingRelease.rser`): `Theorems/C03Wire.lean`.
 -/
 namespace Minimq
 open Gen World Outbound
@@ -93,8 +91,8 @@ theorem C02_retained_queue_agrees_with_log (cfg : Cfg) (ds : List Directive) :
   intro w o hnt hl
   have hinv := run_WInv ds { sess := Session.new cfg } (WInv_init cfg)
   have hlog := (hinv.curLog hnt hl).2
-  exact ⟨hlog.sorted, hlog.below, fun e he hst => hlog.written_entry he hst,
-    fun e he n hst => hlog.unwritten_entry he hst, hinv.sp.1.1.2.inc, hlog.ord_entry⟩
+  exact ⟨hlog.p.sorted, hlog.p.below, fun e he hst => hlog.p.written_entry he hst,
+    fun e he n hst => hlog.p.unwritten_entry he hst, hinv.sp.ser.inc, hlog.p.ord_entry⟩
 
 /-- **Order on the wire.** Of two retained entries that are both written (`Flush` or `Sent`), the one
 accepted first (smaller serial — in particular a replayed packet against one accepted after the
@@ -110,7 +108,7 @@ theorem C02_older_packet_goes_first (cfg : Cfg) (ds : List Directive) :
        ⟨w.nets.length, .retained e2.ser e2.id, slice o.buf e2.offset e2.len⟩].Sublist w.curLog := by
   intro w o hnt hl e1 h1 e2 h2 hs1 hs2 hlt
   have hlog := ((run_WInv ds { sess := Session.new cfg } (WInv_init cfg)).curLog hnt hl).2
-  exact sublist_pair_of_sorted hlog.sorted (hlog.written_entry h1 hs1) (hlog.written_entry h2 hs2) rfl rfl hlt
+  exact sublist_pair_of_sorted hlog.p.sorted (hlog.p.written_entry h1 hs1) (hlog.p.written_entry h2 hs2) rfl rfl hlt
 
 /-- **An unfinished entry has not been on this wire.** While a retained entry is waiting for its first
 byte or partially written, no entry of the log of the current transport carries its serial. (The bytes
@@ -121,7 +119,7 @@ theorem C02_unfinished_entry_not_in_log (cfg : Cfg) (ds : List Directive) :
     ∀ e ∈ w.sess.data.outbound.retained, ∀ n, e.state = .write n → e.ser ∉ sers w.curLog := by
   intro w hnt hl e he n hst hm
   have hlog := ((run_WInv ds { sess := Session.new cfg } (WInv_init cfg)).curLog hnt hl).2
-  exact Nat.lt_irrefl _ (hlog.unwritten_entry he hst _ hm)
+  exact Nat.lt_irrefl _ (hlog.p.unwritten_entry he hst _ hm)
 
 /-- **At most once on every connection, in order.** After any program, for every transport `k`
 (ordinal, 1 = first) that is not marked torn — the current one in whatever state, or an earlier one —
@@ -134,7 +132,7 @@ theorem C02_at_most_once_on_every_connection (cfg : Cfg) (ds : List Directive) :
     ∀ k, 1 ≤ k → k ≤ w.nets.length → k ∉ w.tornNets →
       (sers (w.log.filter (fun f => f.net == k))).Pairwise (· < ·) := by
   intro w k hk1 hk hnt
-  exact (run_WInv ds { sess := Session.new cfg } (WInv_init cfg)).log_sorted k hk1 hk hnt
+  exact ((run_WInv ds { sess := Session.new cfg } (WInv_init cfg)).log_sorted k hk1 hk hnt).1
 
 /-- **Retransmissions differ from the first transmission only in the DUP bit.** After any program, any
 two entries of the transmission log with the same serial — every transmission of one retained packet,
